@@ -289,6 +289,13 @@ def defConstant (st : State) (name : Sel) (nameValid : Bool) (v : Val) : Except 
   if !st.interactive && !(st.constants.matching name).isEmpty then .error .valueError else
   .ok { st with constants := st.constants.set name v }
 
+/-- `ParserDelegate.macro` (861-869): what `%name` becomes at parse time -/
+def resolveMacro (st : State) (name : String) : Except Err Val :=
+  match st.constants.matching (name.splitOn ".") with
+  | [] => .ok (.macro name)
+  | [full] => .ok (.const full)
+  | _ => .error .valueError
+
 def initConstants : SelMap Val := (SelMap.empty : SelMap Val).set ["gin", "REQUIRED"] .required
 
 def clear (st : State) (clearConstants : Bool) : State :=
